@@ -120,8 +120,38 @@ def nnx_case(c):
   return out
 
 
+def reseed_multi(c):
+  """a model whose blocks were built with SEPARATE nnx.Rngs objects holding streams of the same name: reseed restarts every one of them"""
+  class Block(nnx.Module):
+    def __init__(self, rngs):
+      self.rngs = rngs
+  class Model(nnx.Module):
+    def __init__(self, blocks):
+      self.blocks = blocks
+  blocks = [Block(nnx.Rngs(params=10 * i, dropout=10 * i + 1)) for i in range(c['nblocks'])]
+  model = Model(blocks)
+  for i, n in enumerate(c['draws_before']):
+    for _ in range(n):
+      blocks[i % len(blocks)].rngs.dropout()
+  nnx.reseed(model, dropout=c['seed'])
+  out = []
+  for b in blocks:
+    ks = [key_data(b.rngs.dropout()) for _ in range(c['draws_after'])]
+    want = [key_data(jax.random.fold_in(jax.random.key(c['seed']), j)) for j in range(c['draws_after'])]
+    out.append({'restarted': ks == want})
+  return out
+
+
 def main(payload):
   res = {}
+  if 'reseed_multi' in payload:
+    res['reseed_multi'] = []
+    for c in payload['reseed_multi']:
+      try:
+        res['reseed_multi'].append({'ok': reseed_multi(c)})
+      except Exception as e:  # pylint: disable=broad-except
+        import traceback
+        res['reseed_multi'].append({'err': type(e).__name__, 'tb': traceback.format_exc()[-600:]})
   if 'linen' in payload:
     res['linen'] = []
     for i, c in enumerate(payload['linen']):
